@@ -59,8 +59,8 @@ field is encoded by the default rules (then the table says nothing is lost there
 the `from` expression of an assignment element does not survive `marshalKids`/`parseKids`: what
 comes back for it is an empty informal expression. -/
 theorem current_value_fields_dichotomy :
-    valueStructFields T = [] ∨
-    (valueStructFields T ≠ [] ∧
+    valueExprFields T = [] ∨
+    (valueExprFields T ≠ [] ∧
       (parseKids T T.rootDecls (elemFields T Bpmn.Gen.C15.tyAssignment)
         (marshalFields T id (elemFields T Bpmn.Gen.C15.tyAssignment) witnessValue.kids)).map
           (fun l => l.map (fun p => p.2.ty)) = some [T.informalTy, T.informalTy]) := by
